@@ -30,9 +30,10 @@ RULE = ("1-4 destinations (one always-healthy reference at a random position, th
         "eliot/_output.py), all one-preemption schedules per priority order + sampled deeper ones: every destination is offered the "
         "same set of messages once, per-thread order kept, every failed delivery reported exactly once. part 'reentrant': destinations that log while handling a message (a relay answering "
         "with a message of its own, a FileDestination whose json_default logs a diagnostic, optionally a failing one in between) run as a one-thread "
-        "schedule: no self-deadlock, every destination offered every outer and nested message exactly once, reports == failed deliveries. A quarter of the random programs run inside an action bound to a logger object of its "
+        "schedule: no self-deadlock, every destination offered every outer and nested message exactly once, reports == failed deliveries. part 'interrupted_report': 2-3 destinations fail on one message and the delivery of the first report "
+        "is cut short by a non-Exception from another destination: the healthy destination (registered first) is still offered one report per failure. A quarter of the random programs run inside an action bound to a logger object of its "
         "own, half of the hand-overs happen inside an open action. non-trivial = >=2 faulty destinations or a mask that hits a report; distinct by (program shape, masks)")
-ASSUMPTIONS = ["destinations raise Exception subclasses", "under concurrency only per-destination sets, per-thread order and report counts are judged "
+ASSUMPTIONS = ["destinations raise Exception subclasses (part 'interrupted_report' alone lets one raise a non-Exception, and only while it is offered a failure report)", "under concurrency only per-destination sets, per-thread order and report counts are judged "
                "(destinations may legitimately see different total orders)"]
 EXHAUSTIVE_NOTE = "part 'enum' enumerates every failure mask over the first K calls of D destinations"
 BATCH = 100
@@ -55,6 +56,8 @@ def plan(tier, seed):
         specs.append({"part": "threads", "seed": seed, "i": j, "tier": tier})
     for j in range(300 if tier == "quick" else 3000):
         specs.append({"part": "reentrant", "seed": seed, "i": j})
+    for j in range(100 if tier == "quick" else 1000):
+        specs.append({"part": "interrupted_report", "seed": seed, "i": j})
     return specs
 
 
@@ -274,6 +277,59 @@ def part_prebuffered(spec, res):
     if problems:
         res["violations"].append({"msg": problems[0], "mech": None, "detail": {"label": "prebuffered", "problems": problems[:8], "buffered_program": p1,
                                                                                "later_program": p2, "masks": [d[3] for d in dspec if d[0] in ("bad", "closed")]}})
+
+
+def part_interrupted_report(spec, res):
+    """Two destinations fail on the same message; while the report about the FIRST failure is being delivered, a destination
+    raises something that is not an Exception (KeyboardInterrupt during a slow write, a cancellation): that report's delivery is cut
+    short, but the second failure is still reported. The healthy destination is registered first, so it is offered everything."""
+    rng = random.Random("%s:C08:ir:%d" % (spec["seed"], spec["i"]))
+    got = []
+
+    def ref(m):
+        got.append(dict(m))
+    reports_seen = [0]
+    interrupt = rng.choice([KeyboardInterrupt, excs.UserBase, SystemExit, GeneratorExit])
+
+    def interrupter(m):
+        if m.get("message_type") == "eliot:destination_failure":
+            reports_seen[0] += 1
+            if reports_seen[0] == 1:
+                raise interrupt("while the first report is delivered")
+    nbad = rng.choice([2, 2, 3])
+    target = rng.randint(1, 4)
+
+    def make_bad(j):
+        def bad(m):
+            if m.get("n") == target:
+                raise excs.DestFault("destination %d fails on message %d" % (j, target))
+        return bad
+    others = [make_bad(j) for j in range(nbad)] + [interrupter]
+    rng.shuffle(others)
+    dests = [ref] + others
+    add_destinations(*dests)
+    problems = []
+    try:
+        with start_action(action_type="ir:act"):
+            for n in range(1, 6):
+                log_message(message_type="ir:m", n=n)
+    except BaseException as e:
+        problems.append("logging raised %r" % (e,))
+    finally:
+        for d in dests:
+            remove_destination(d)
+    reps = [m for m in got if m.get("message_type") == "eliot:destination_failure"]
+    if len(reps) != nbad:
+        problems.append("%d destinations failed on one message (delivery of the first report was interrupted by %s): the healthy destination was offered %d reports" % (
+            nbad, interrupt.__name__, len(reps)))
+    if [m.get("n") for m in got if m.get("message_type") == "ir:m"] != [1, 2, 3, 4, 5]:
+        problems.append("the healthy destination did not receive the five messages once each, in order")
+    res["evals"] += 1
+    c = res["counters"]
+    c["interrupted_report_runs"] = c.get("interrupted_report_runs", 0) + 1
+    res["nontrivial"].append(h(["ir", nbad, target, interrupt.__name__, [getattr(d, "__name__", "") for d in dests]]))
+    if problems:
+        res["violations"].append({"msg": problems[0], "mech": None, "detail": {"label": "interrupted_report", "problems": problems[:4]}})
 
 
 class Payload(object):
@@ -506,6 +562,9 @@ def run_case(spec):
         return res
     if spec["part"] == "reentrant":
         part_reentrant(spec, res)
+        return res
+    if spec["part"] == "interrupted_report":
+        part_interrupted_report(spec, res)
         return res
     if spec["part"] == "random":
         for i in range(spec["lo"], spec["hi"]):
